@@ -127,6 +127,12 @@ def unit_l1float(tier, seed):
     return unit_l1.run_float(tier, seed)
 
 
+def unit_l0contract(tier, seed):
+    import unit_l0contract
+    return unit_l0contract.run(tier, seed)
+
+
+UNITS['l0contract'] = unit_l0contract
 UNITS['l1float'] = unit_l1float
 UNITS['l1int'] = unit_l1int
 UNITS['l1enc'] = unit_l1enc
@@ -228,7 +234,7 @@ PROPERTY_UNITS['C10'] = ['l2', 'sigtab', 'bs_msmrows', 'bs_msgs', 'l0bits']
 PROPERTY_UNITS['C02'] = ['frame', 'msgl3', 'l2', 'l1int', 'l1enc', 'bs_msgs', 'l0bits']
 
 # units that run only in the thorough tier
-THOROUGH_EXTRA = {'C08': ['l1float'], 'C01': ['l1float']}
+THOROUGH_EXTRA = {'C08': ['l1float'], 'C01': ['l1float'], 'C07': ['l0contract']}
 
 PROPERTY_LEVEL = {'C07': 'other', 'C19': 'other', 'C16': 'other'}
 PROPERTY_EXPLANATION = {'C16': 'Deductive part (Verus): the three bias-list decoders never exceed their capacity and never panic. The encoders (iterator filter/count closures) are outside the verifier: bounded native search only, labelled bounded.', 'C19': 'Configuration sweep: for the empty selection and each single message feature the crate is type-checked without std, the expanded dispatch is checked to name only its own number, and the expanded decoder text is compared with the all_msgs expansion that the deductive units verify; plus the Verus obligations of unit msgl3 on the feature set.', 'C07': 'Kani/CBMC harnesses complete over values x widths x bit offsets x buffer contents for every carrier type; buffer length symbolic up to the window listed in bounded_stand_ins (bounded in that one dimension).'}
